@@ -99,7 +99,7 @@ def handleAlpha (rest : String) : String :=
   | _ => "ERR args"
 
 /-- `fixes_check <hexsrc> <start>:<end>:<hexnew> …` (C22): the exact model of `apply_fixes` on the
-real fix list (bytes): `OK (fixes <disjoint-and-in-bounds 0|1> <hex result | PANIC>)`. -/
+real fix list (bytes): `OK (fixes <disjoint-and-in-bounds 0|1> <hex result | PANIC> <hex result of the skip-overlap variant>)`. -/
 def handleFixes (rest : String) : String :=
   match rest.splitOn " " with
   | srcHex :: fixParts =>
@@ -116,9 +116,10 @@ def handleFixes (rest : String) : String :=
       let fixes := fixes.filterMap id
       let asc := fixes.mergeSort (fun a b => decide (a.start ≤ b.start))
       let disj := fixesDisjointSorted src.length 0 asc
+      let skip := Hex.encodeBytes (applyFixesSkip src fixes)
       match applyFixes src fixes with
-      | none => s!"OK (fixes {b01 disj} PANIC)"
-      | some r => s!"OK (fixes {b01 disj} {Hex.encodeBytes r})"
+      | none => s!"OK (fixes {b01 disj} PANIC {skip})"
+      | some r => s!"OK (fixes {b01 disj} {Hex.encodeBytes r} {skip})"
   | _ => "ERR args"
 
 def handle (op : String) (rest : String) : Option String :=
